@@ -214,7 +214,19 @@ pub fn gen_coop_case(tape: &[u32], which: &str) -> CoopCase {
         "C14" => true,
         _ => t.chance(2, 5),
     };
-    let pf = if which == "C14" { profile(2) } else if lattice { profile(1) } else { profile(0) };
+    let pf = if which == "C14" {
+        profile(2)
+    } else if lattice {
+        let mut p = profile(1);
+        if which == "C21" {
+            // cycle_result functions run with local cancellation deferred as well; there is no
+            // second revision in this mode, so the listed cycle_result findings cannot arise
+            p.kinds[8] = 2;
+        }
+        p
+    } else {
+        profile(0)
+    };
     let prog = gen_program(&mut t, &pf);
     let nn = prog.nodes.len() as u32;
     let nreaders = if which == "C20" { 1 + t.pick(3) } else { 2 + t.pick(2) };
